@@ -276,14 +276,17 @@ class Gen:
         """#ifdef / #if blocks with nested defines (indented as the norm wants)."""
         r = self.r
         ind = " " * depth
-        k = r.randrange(3)
+        k = r.randrange(4)
         m = self.pick(["BUFFER_SIZE", "MAX_LEN", "ZERO", "FLAG_A", "DEBUG"])
         if k == 0:
             out += [f"#{ind}ifdef {m}", f"#{ind} define {m}_B 1", f"#{ind}else", f"#{ind} define {m}_B 2", f"#{ind}endif"]
         elif k == 1:
             out += [f"#{ind}if defined({m}) && ({m} > 2 || !ZERO)", f"#{ind} define W 1", f"#{ind}elif {m} == 3", f"#{ind} define W 2", f"#{ind}endif"]
-        else:
+        elif k == 2:
             out += [f"#{ind}ifndef {m}", f"#{ind} define {m} {self.pick(CONSTS[:6])}", f"#{ind}endif", f"#{ind}undef ZERO"]
+        else:
+            c = self.pick(["0", "1", "0", "(0)", "!1"])
+            out += [f"#{ind}if {c}", f"#{ind} define {m}_OFF 1", f"#{ind}else", f"#{ind} define {m}_ON 1", f"#{ind} define {m}_ON2 2", f"#{ind}endif"]
 
     def c_file(self, name):
         r = self.r
